@@ -27,8 +27,8 @@ M("sort-reverse-merge-last-max", S, "        nxt = op(shortlist, **opkwargs)\n  
   "        nxt = op(reversed(shortlist), **opkwargs) if reverse else op(shortlist, **opkwargs)\n        yield nxt\n        nextidx = shortlist.index(nxt)", ["C05"])
 M("sort-merge-runs-reversed", S, "            chunkiters = [_iterchunk(f.name) for f in chunkfiles]\n            for row in _mergesorted(getkey, reverse, *chunkiters):",
   "            chunkiters = [_iterchunk(f.name) for f in reversed(chunkfiles)]\n            for row in _mergesorted(getkey, reverse, *chunkiters):", ["C05"])
-M("sort-filecache-ignores-reverse", S, "        rows = _mergesorted(self._getkey, self.reverse, *chunkiters)",
-  "        rows = _mergesorted(self._getkey, False, *chunkiters)", ["C05"])
+M("sort-filecache-ignores-reverse", S, "        rows = _mergesorted(getkey, self.reverse, *chunkiters)",
+  "        rows = _mergesorted(getkey, False, *chunkiters)", ["C05"])
 M("sort-second-chunk-unsorted-reverse", S, "                rows = list(itertools.islice(it, 0, self.buffersize))\n                rows.sort(key=getkey, reverse=reverse)",
   "                rows = list(itertools.islice(it, 0, self.buffersize))\n                rows.sort(key=getkey)", ["C05"])
 M("mergesort-ignores-missing", S, "                yield tuple(_row[flds.index(fo)] if fo in flds else missing",
